@@ -229,11 +229,11 @@ CHECKS = {
         "runs": parruns(["VxC11_Nested", "VxC11_Returning", "VxC11_Where2", "VxC11_Select2"], ["VxC11_Nested", "VxC11_Returning", "VxC11_Where3", "VxC11_Select3"], ["C11.is_ctx_err", "C11.same_tree", "C11.residue_depth"]),
     },
     "C12": {
-        "bounds": {"quick": "token soup: every EOF-terminated stream of <= 3 symbolic tokens (150-row table) at statement start and after 'SELECT a FROM t ;' — termination (unwinding budget) and errors-iff-strict-fails; scripts S1;S2 where each Si is one of 4 valid statements (incl. SHOW, whose first token is not a synchronisation keyword) under a symbolic corruption (none / delete / duplicate / replace by one of 12 tokens / truncate, position symbolic)",
-                   "thorough": "<= 4 soup tokens; scripts of 3 statements"},
-        "outside": "longer scripts; corruptions that introduce a statement-starting keyword after the first token (excluded by the property itself); 'nothing but the well-formed trees is returned' (the unchanged tree also returns the parsed prefix of a statement followed by junk)",
+        "bounds": {"quick": "token soup: every EOF-terminated stream of <= 3 symbolic tokens (150-row table) at statement start and after 'SELECT a FROM t ;' — termination (unwinding budget) and errors-iff-strict-fails; scripts S1;S2 where each Si is one of 8 valid statements (SELECT x2, SHOW - whose first token is not a synchronisation keyword -, DELETE, DROP, TRUNCATE, CREATE TABLE, INSERT) under a symbolic corruption (none / delete / duplicate / replace by one of 12 tokens / truncate, position symbolic), at most one corrupted; twins: the same corrupted statement twice, optionally around a good one: two errors, exactly the good statements, no nil entry",
+                   "thorough": "<= 4 soup tokens; scripts of 2 and 3 statements with every statement independently corrupted"},
+        "outside": "longer scripts; corruptions that introduce a statement-starting keyword after the first token (excluded by the property itself)",
         "assumptions": ["a statement is 'well-formed' iff strict parsing of it alone (with its terminating semicolon) succeeds with exactly one statement"],
-        "runs": parruns(["VxC12_Soup_Start3", "VxC12_Script2q"], ["VxC12_Soup_Start4", "VxC12_Soup_Semi4", "VxC12_Script2", "VxC12_Script3", "VxC12_Soup_Semi3"], ["C12.iff", "C12.no_loss", "C12.one_error_per_malformed"], generic=["unwind"]),
+        "runs": parruns(["VxC12_Soup_Start3", "VxC12_Script2q", "VxC12_Twins"], ["VxC12_Soup_Start4", "VxC12_Soup_Semi4", "VxC12_Script2", "VxC12_Script3", "VxC12_Soup_Semi3", "VxC12_Twins"], ["C12.iff", "C12.no_loss", "C12.one_error_per_malformed", "C12.exactly_the_good"], generic=["unwind"]),
     },
     "C13": {
         "bounds": {"quick": "every failing path of the C01 runs (same bounds, including every truncation of the 43-statement corpus): tokenizer errors and low-level parser errors", "thorough": "same as C01 thorough"},
